@@ -306,6 +306,20 @@ func c15JudgePos(c *mon.Ctx, in *c15Pos) {
 	if len(h) != 20 {
 		return
 	}
+	// hash and key are handed to the library as sub-slices of one larger buffer
+	// (guard bytes in between, capacity running on to the end): the library may
+	// read its arguments, not write behind or into them
+	arena := append(append(append(append(bytes.Repeat([]byte{0xC5}, 8), h...), bytes.Repeat([]byte{0xC6}, 8)...), key...), bytes.Repeat([]byte{0xC7}, 8)...)
+	arena0 := append([]byte{}, arena...)
+	h = arena[8:28]
+	if key != nil {
+		key = arena[36 : 36+len(key)]
+	}
+	defer func() {
+		if !bytes.Equal(arena, arena0) {
+			c.Violationf("C15:argument-memory-modified", "the buffer holding the key hash / public key handed to the constructors changed: now %x, was %x", arena, arena0)
+		}
+	}()
 	hx := hex.EncodeToString(h)
 	canon := c15Canonical(h)
 	bad := false
@@ -564,6 +578,11 @@ func c15JudgeStr(c *mon.Ctx, in *c15Str) {
 			b = *ftx.Outputs[0].LockingScript
 		}
 		judge("Tx.ChangeToAddress", err == nil, "", b)
+	}
+	btx := c15FundedTx() // a transaction whose outputs already take everything the inputs bring: nothing to give back, the address must be checked all the same
+	_ = btx.PayTo(bscript.NewFromBytes(c15Canonical(bytes.Repeat([]byte{0x33}, 20))), 100000)
+	if c.Try("bt.(*Tx).ChangeToAddress", func() { err = btx.ChangeToAddress(s, c15FQ) }) {
+		judge("Tx.ChangeToAddress", err == nil, "", nil) // same entry point (and the same known checksum finding) as below
 	}
 	atx := bt.NewTx()
 	if c.Try("bt.(*Tx).AddP2PKHOutputFromAddress", func() { err = atx.AddP2PKHOutputFromAddress(s, 1000) }) {
